@@ -180,7 +180,7 @@ func DefaultOpOpts() OpOpts {
 }
 
 var opNamePool = []string{"GetThing", "ListAll", "Q", "Lookup", "Search", "getUser", "GetUser", "Fetch", "Op1", "Op2", "My_Query", "A", "B"}
-var fragNamePool = []string{"F", "UserFields", "NodeParts", "Contact", "Names", "G", "H", "Details", "inner_frag"}
+var fragNamePool = []string{"FragF", "UserFields", "NodeParts", "Contact", "Names", "FragG", "FragH", "Details", "inner_frag"}
 var aliasPool = []string{"x", "y", "other", "first", "second", "A", "renamed", "f", "g", "snake_alias", "ID", "Id"}
 
 type opGen struct {
